@@ -9,7 +9,8 @@ use metrique_writer::sink::{BackgroundQueue, BackgroundQueueBuilder};
 use metrique_writer::{AnyEntrySink, BoxEntrySink, EntrySink};
 use std::collections::HashMap;
 use std::sync::atomic::{AtomicU64, Ordering};
-use std::sync::{Arc, Barrier};
+use std::sync::Arc;
+use vcommon::sync::SpinGate as Barrier;
 use std::time::{Duration, Instant};
 use vcommon::serde_json::json;
 use vcommon::stream::{EntryKind, Ev, IdEntry, Outcome, StreamShared, id_producer, id_seq, make_id};
